@@ -181,7 +181,7 @@ void eng_spurious_hold_exit(void)
         cat_status s = cat_hold_exit(W.at, chance(50) ? CAT_STATUS_OK : CAT_STATUS_ERROR);
         CNT("spurious_hold_exits");
         if (s != CAT_STATUS_ERROR_NOT_HOLD) viol("C14", "spurious-release-accepted", "cat_hold_exit outside a hold returned %d", (int)s);
-        if (memcmp(&before, W.at, sizeof before) != 0) viol("C14", "spurious-release-changed-state", "cat_hold_exit outside a hold modified the parser object");
+        if (RAW_COMPARES && memcmp(&before, W.at, sizeof before) != 0) viol("C14", "spurious-release-changed-state", "cat_hold_exit outside a hold modified the parser object");
 }
 
 /* ------------------------------------------------------ post-step monitors */
@@ -237,7 +237,7 @@ void eng_after_service(cat_status s)
                 if (OUTN != outn || N_WRITE_OK + N_WRITE_NO != wr) viol("C15", "probe-emitted", "the repeated call after OK offered output");
                 if (hc2 != hc) viol("C15", "probe-invoked-callback", "the repeated call after OK invoked a handler or variable callback");
                 before.current_char = W.at->current_char;
-                if (memcmp(&before, W.at, sizeof before) != 0) viol("C15", "probe-changed-state", "the repeated call after OK modified the parser object");
+                if (RAW_COMPARES && memcmp(&before, W.at, sizeof before) != 0) viol("C15", "probe-changed-state", "the repeated call after OK modified the parser object");
         }
         canary_check("after service");
 }
